@@ -210,3 +210,27 @@ prop("C14",
          {"name": "miri", "build": "miri-sb", "bin": "c14", "shards": {"quick": 8, "thorough": 16}, "set": {"seq": {"quick": 2, "thorough": 3}}, "timeout": {"quick": 1500, "thorough": 7200}},
          {"name": "asan", "build": "asan", "bin": "c14"},
      ])
+
+prop("C04",
+     technique="runtime monitoring: real adaptor trees over pull-counting, index-identifying sources vs. a reference tree interpreter; inspect-closure event logs; by_ref resume checks",
+     level_text=("Every adaptor alone and every ordered pair of adaptors (all parameter variants) x six frame types (f64, [f32;2], [i16;3], [u8;2], [I24;1], [u32;4]), then 10^4 "
+                 "(quick) / 6x10^5 (thorough) random trees of depth <= 4 / 6 over up to 5 finite or infinite leaves, 8-64 outputs each. Per output: root frame == "
+                 "interpreter on the recorded leaf frames, every leaf pulled exactly max(0, n - delays above it) times, inspect closures saw exactly their child's frames "
+                 "(count and content); a quarter of the runs wrap the signal by reference in one more adaptor for m outputs, drop it, and check the signal resumes at "
+                 "the right frame. Exploration: programs (trees) are unbounded."),
+     level_note="trusted: the interpreter applies the Frame operation the statement names (validated by C03) and an independent clamp (vmon::spec) for clip_amp; trees are generated so that every intermediate amplitude stays in the documented domain",
+     rule=("cases are (frame type, adaptor tree, leaf lengths, outputs, resume); single adaptors/pairs enumerated, deeper trees random; non-trivial = >= 2 adaptors or a "
+           "non-f64 frame type; distinct by hash of (frame type, tree expression); evaluations = output frames checked"),
+     stages=[{"name": "main", "build": "fast", "bin": "c04"}])
+
+prop("C05",
+     technique="runtime monitoring: exhaustion reference model stepped with real adaptor trees over finite instrumented leaves; instrumented fused/non-fused iterators; item counts of until_exhausted / lift / take / into_interleaved_samples",
+     level_text=("Signals from iterators of 0..=20 (quick) / 0..=64 (thorough) frames or interleaved samples x channel counts 1..=8 (every remainder, fused and non-fused "
+                 "iterators) with 1/7/32 further calls after exhaustion; every adaptor over leaves of every length 0..=6 (binary adaptors: every length pair, both orders), "
+                 "adaptor pairs, and 6x10^3 / 3x10^5 random trees: is_exhausted() before and after every next() == model, frames == interpreter, until_exhausted yields "
+                 "exactly min-leaf-length (+delays) items then None for good, take(n) yields n, interleaved output yields frames x channels samples in order without "
+                 "fetching a frame after exhaustion (both via into_iter and next_sample). Exploration: programs and lengths are unbounded."),
+     level_note="trusted: the exhaustion model (leaf: pulls >= L; combining: OR; delay: silence owed keeps it live) and the C04 interpreter",
+     rule=("cases are (tree, leaf lengths, frame type, extra calls) and (iterator length, channels, fused?, extra calls); enumerated for small trees/lengths, random beyond; "
+           "non-trivial = all of them except the doc-test shapes (single from_iter / add_amp of lengths 2 and 4); distinct by hash of (tree, lengths) / iterator case"),
+     stages=[{"name": "main", "build": "fast", "bin": "c05"}])
